@@ -98,7 +98,7 @@ func drawCase(rt *rapid.T, full bool) *paceCase {
 		c.Mapping = "CAM"
 	}
 	c.PwKind = rapid.IntRange(0, 2).Draw(rt, "pwKind")
-	c.Arrange = rapid.IntRange(0, 5).Draw(rt, "arrangement")
+	c.Arrange = rapid.IntRange(0, nArrange-1).Draw(rt, "arrangement")
 	c.MRZ = chiptest.DrawMRZ(rt)
 	c.CAN = rapid.StringMatching(`[0-9]{6}`).Draw(rt, "can")
 	c.ChipSeed = rapid.SliceOfN(rapid.Byte(), 16, 16).Draw(rt, "chipSeed")
@@ -117,6 +117,9 @@ type built struct {
 
 const oidUnknown = "1.3.6.1.4.1.99999.1.2"
 
+// nArrange is the number of EF.CardAccess arrangements build knows.
+const nArrange = 9
+
 // build personalises a conforming chip for the case.
 func build(c *paceCase, deviate func(string, []byte) []byte) *built {
 	cv := ecc.ByPaceID(c.ParamID)
@@ -128,6 +131,8 @@ func build(c *paceCase, deviate func(string, []byte) []byte) *built {
 	imOID := "0.4.0.127.0.7.2.2.4.4.2"   // id-PACE-ECDH-IM-AES-CBC-CMAC-128 (unsupported by the library)
 	dhOID := "0.4.0.127.0.7.2.2.4.1.2"   // id-PACE-DH-GM-AES-CBC-CMAC-128 (unsupported)
 	dhIMOID := "0.4.0.127.0.7.2.2.4.3.1" // id-PACE-DH-IM-3DES
+	const paceArcUnknownMapping = "0.4.0.127.0.7.2.2.4.9.2" // id-PACE 9 (no such mapping) . AES-128
+	const paceArcUnknownCipher = "0.4.0.127.0.7.2.2.4.2.9"  // id-PACE-ECDH-GM . 9 (no such cipher)
 	otherID := 12
 	if c.ParamID == 12 {
 		otherID = 10
@@ -154,6 +159,18 @@ func build(c *paceCase, deviate func(string, []byte) []byte) *built {
 		}
 	case 5: // chip-authentication info and unknown entries mixed in
 		infos = [][]byte{lds.ChipAuthInfo(chipsim.CAOID("AES-128"), 1, nil), main, lds.UnknownInfo(oidUnknown, nil)}
+	case 6: // PACEInfos with OIDs inside the id-PACE arc that no table knows (future mapping / future cipher), other parameter id, listed first
+		infos = [][]byte{lds.PACEInfo(paceArcUnknownMapping, 2, big.NewInt(int64(otherID))), lds.PACEInfo(paceArcUnknownCipher, 2, big.NewInt(int64(otherID))), main}
+	case 7: // the same without a parameter id, before and after the supported entry
+		infos = [][]byte{lds.PACEInfo(paceArcUnknownMapping, 2, nil), main, lds.PACEInfo(paceArcUnknownCipher, 2, nil)}
+	case 8: // unsupported entries of every kind first, then two supported suites on different parameter ids (the chip supports both)
+		second := chipsim.PaceOID("GM", "AES-256")
+		if c.Cipher == "AES-256" {
+			second = chipsim.PaceOID("GM", "AES-192")
+		}
+		infos = [][]byte{lds.PACEInfo(paceArcUnknownCipher, 2, big.NewInt(31)), lds.PACEInfo(imOID, 2, big.NewInt(int64(otherID))), lds.PACEInfo(dhOID, 2, big.NewInt(2)),
+			main, lds.PACEInfo(second, 2, big.NewInt(int64(otherID)))}
+		entries = append(entries, chipsim.PaceEntry{OID: second, ParamID: otherID})
 	}
 	b := &built{}
 	b.cardAccess = lds.CardAccess(infos...)
@@ -400,7 +417,7 @@ func TestPACEMatrix(t *testing.T) {
 					}
 					seed := []byte(fmt.Sprintf("matrix-%d-%d-%d", evid.Seed(), idx, r))
 					st := detrand.New(seed)
-					c := &paceCase{ParamID: id, Cipher: cp, Mapping: mp, PwKind: r % 3, Arrange: r % 6,
+					c := &paceCase{ParamID: id, Cipher: cp, Mapping: mp, PwKind: r % 3, Arrange: r % nArrange,
 						CAN: "123456", ChipSeed: st.Bytes(16), LibSeed: st.Bytes(16), DevSeed: st.Bytes(8)}
 					c.MRZ = fixedMRZ()
 					interopCase(t, c, "matrix")
